@@ -55,6 +55,10 @@ MonthS(e) ==
                                 Mul(Mul(Mul(Mul(pop, hb.milkYield), I(610)), Sub(One, Pct(hb.wDistMilk))), Sub(One, Pct(hb.wRetail))))
                         ELSE Eq(e.milk, Zero))
   /\ Ck("FeedCoversHerd", hb.round # 3 \/ Le(e.feedEaten, e.feedCharged))
+  \* the herds never eat more feed than they were offered; the final round's herds are offered at most what the
+  \* feed-maximising round allocated to feed (its result less the safety margin), never the full demand
+  /\ Ck("EatenWithinOffered", Le(e.feedEaten, e.feedOffered))
+  /\ Ck("FinalHerdOnRound2Feed", hb.round # 3 \/ Le(e.feedOffered, e.feedRound2))
   /\ Ck("GrassWithin", NonNeg(e.grassEaten) /\ Le(e.grassEaten, e.grass))
   /\ Ck("FeedEatenNonNeg", NonNeg(e.feedEaten))
   /\ hmon' = hmon + 1
